@@ -657,11 +657,12 @@ def run_symbolic(fn, loader, max_paths=64, z3_timeout=2000, seed=0, witness_trie
                 outcome = 'gap'; err = f'{type(e).__name__}: {e}'
             else:
                 outcome = 'raised'; err = f'NotImplementedError: {str(e)[:300]}\n' + traceback.format_exc()[-1500:]
-        except (TypeError, AttributeError, KeyError, NameError, UnboundLocalError) as e:
+        except (TypeError, AttributeError, KeyError, NameError, UnboundLocalError, np.exceptions.AxisError) as e:
             # raised INSIDE the torch model (innermost frame in pvc/): a signature / value kind the model does not handle, or a defect
             # of the model itself - an engine gap, never a verdict on the code.  (Errors torch itself would raise are modelled as
             # RuntimeError / IndexError / ValueError and stay path outcomes.)
-            tb = traceback.extract_tb(e.__traceback__)
+            tb = [f for f in traceback.extract_tb(e.__traceback__) if 'site-packages' not in f.filename and '/lib/python' not in f.filename] \
+                or traceback.extract_tb(e.__traceback__)          # innermost frame outside third-party libraries
             if tb and '/pvc/' in tb[-1].filename:
                 outcome = 'gap'; err = f'{type(e).__name__} inside the torch model: {str(e)[:200]} ({os.path.basename(tb[-1].filename)}:{tb[-1].lineno})'
             else:
